@@ -18,7 +18,7 @@ CHECKS = {
    technique="runtime monitoring: differential oracle vs independent reference codec, exhaustive small tables"),
  "C04": dict(
    level="exploration",
-   text="size()==bytes-written oracle over generated value trees for every hand-written length protocol in three usage patterns (fresh instance; same instance sizes then writes; value k+1 sized after value k written), all buffer kinds.",
+   text="size()==bytes-written oracle over generated value trees for every hand-written length protocol in three usage patterns (fresh instance; same instance sizes then writes; value k+1 sized after value k written), all buffer kinds; message envelopes (message_begin_len + message_end_len vs bytes written) over names x sequence ids x message types.",
    design="6/C04",
    note="Hand-written length protocols (value interpreter) + generated types (Message::size vs Message::encode on all corpora/configurations, incl. values carrying retained unknown fields). Trusted: byte counting at the flattened buffer.",
    technique="runtime monitoring: length walk mirrored call-for-call against the write walk"),
@@ -36,7 +36,7 @@ CHECKS = {
    technique="runtime monitoring: fault enumeration under allocator/panic/CPU/poll monitors in supervised workers"),
  "C11": dict(
    level="exploration",
-   text="Differential oracle unchecked vs checked binary codec inside the documented contract (exact-size window from the checked size; complete reference-encoded input): identical bytes, identical values and consumed counts, identical skip counts for a partial reader; guard regions around the window; dev-profile ub_checks abort => supervised worker death => violation.",
+   text="Differential oracle unchecked vs checked binary codec inside the documented contract (exact-size window sized by the unchecked writer's own length protocol, which must agree with the checked one; complete reference-encoded input): identical bytes, identical values and consumed counts, identical skip counts for a partial reader; guard regions around the window; dev-profile ub_checks abort => supervised worker death => violation.",
    design="6/C11",
    note="Hand-written codec + generated types (decode equality/consumed bytes, encode into guarded exact-size windows, half of the values carry unknown fields skipped or retained). ASan/Miri layers (hand-written codec and the generated keep-mode code of corpus q0): thorough tier. Guard regions cannot see out-of-window reads; ub_checks cover get_unchecked only.",
    technique="runtime monitoring: differential oracle + guard regions + std ub_checks, supervised processes"),
